@@ -156,6 +156,45 @@ def main():
         if [s for s in stripped] != [w for w in want]:
             i = next((k for k, (x, y) in enumerate(zip(stripped, want)) if x != y), -1)
             out["problems"].append(f"seed {seed} v{version}: annotated TEAL without comments differs from the plain TEAL at line {i}: {stripped[i:i+1]} vs {want[i:i+1]}")
+    # ---- Router.compile: the same program with / without source maps, and the same as compile_program ----------------------------------
+    try:
+        from pyteal import abi
+
+        def mk_router():
+            router = pt.Router("r15", pt.BareCallActions(no_op=pt.OnCompleteAction.create_only(pt.Approve()), opt_in=pt.OnCompleteAction.call_only(pt.Seq(pt.Log(pt.Bytes("o"))))),
+                               clear_state=pt.Approve())
+
+            @router.method
+            def add(a: abi.Uint64, b: abi.Uint64, *, output: abi.Uint64):
+                return output.set(a.get() + b.get())
+
+            @router.method(no_op=pt.CallConfig.CALL, opt_in=pt.CallConfig.ALL)
+            def note(s: abi.String):
+                return pt.Log(s.get())
+            return router
+        for ver in (6, 8, 10):
+            ra = mk_router().compile(version=ver, with_sourcemaps=False)
+            rb = mk_router().compile(version=ver, with_sourcemaps=True, approval_filename="a.teal", clear_filename="c.teal", annotate_teal=True)
+            pa, pc, _ = mk_router().compile_program(version=ver)
+            out["n"] += 1
+            if (ra.approval_teal, ra.clear_teal) != (rb.approval_teal, rb.clear_teal):
+                out["problems"].append(f"Router.compile v{ver}: approval / clear-state TEAL differ when source maps are requested")
+            if (ra.approval_teal, ra.clear_teal) != (pa, pc):
+                out["problems"].append(f"Router.compile v{ver}: TEAL differs from Router.compile_program")
+            for nm, teal, smap in (("approval", rb.approval_teal, rb.approval_sourcemap), ("clear", rb.clear_teal, rb.clear_sourcemap)):
+                if smap is None:
+                    out["problems"].append(f"Router.compile v{ver}: no {nm} source map although requested")
+                    continue
+                ent = sorted(smap.r3_sourcemap.entries.keys())
+                if [l for l, c in ent] != list(range(len(teal.split("\n")))):
+                    out["problems"].append(f"Router.compile v{ver}: {nm} map has {len(ent)} entries for {len(teal.split(chr(10)))} TEAL lines")
+                ann = smap.annotated_teal or ""
+                st = [" ".join(" ".join(t) for t in (avm.tokenize_line(x) if not x.lstrip().startswith("#pragma") else [[x.split("//")[0].strip()]])) for x in ann.split("\n")]
+                wt = [" ".join(" ".join(t) for t in (avm.tokenize_line(x) if not x.lstrip().startswith("#pragma") else [[x.strip()]])) for x in teal.split("\n")]
+                if st != wt:
+                    out["problems"].append(f"Router.compile v{ver}: annotated {nm} TEAL without comments differs from the plain TEAL")
+    except Exception as ex:
+        out["problems"].append(f"Router.compile scenario raised {type(ex).__name__}: {str(ex)[:200]}")
     # ---- attribution of constants to (file, line) ---------------------------------------------------------------------
     src = os.path.join(tmpdir, "usermod.py")
     consts = [900001 + 7 * i for i in range(12)]
